@@ -208,7 +208,11 @@ func (s *sharedEntryAttributes) validateLeafRefs(ctx context.Context, resultChan
 			return
 		}
 		// if required, issue error
-		resultChan <- types.NewValidationResultEntry(s.leafVariants.GetHighestPrecedence(false, false).Owner(), fmt.Errorf("missing leaf reference: failed resolving leafref %s for %s: %v", lref, s.Path().String(), err), types.ValidationResultEntryTypeError)
+		owner := "unknown"
+		if lv := s.leafVariants.GetHighestPrecedence(false, true); lv != nil {
+			owner = lv.Owner()
+		}
+		resultChan <- types.NewValidationResultEntry(owner, fmt.Errorf("missing leaf reference: failed resolving leafref %s for %s: %v", lref, s.Path().String(), err), types.ValidationResultEntryTypeError)
 		return
 	}
 
@@ -231,7 +235,7 @@ func (s *sharedEntryAttributes) validateLeafRefs(ctx context.Context, resultChan
 func generateOptionalWarning(ctx context.Context, s Entry, lref string, resultChan chan<- *types.ValidationResultEntry) {
 	lrefval, err := s.getHighestPrecedenceLeafValue(ctx)
 	if err != nil {
-		resultChan <- types.NewValidationResultEntry(lrefval.Owner(), err, types.ValidationResultEntryTypeError)
+		resultChan <- types.NewValidationResultEntry("unknown", err, types.ValidationResultEntryTypeError)
 		return
 	}
 	tvVal, err := lrefval.Update.Value()
